@@ -202,8 +202,8 @@ example : (enumerate 7 ⟨0, 0, 0, 2, 2, 3⟩).length = 12 := by decide
 example : voxSize 7 2 = 4 ∧ voxSize 8 2 = 4 ∧ voxSize 0 1 = 1 := by decide
 
 /-- `Sound` cannot be dropped: an oracle that answers *filled* where the classifier is false
-    (what `isFilled()` does on a maybe-NaN interval such as that of `√x − 10`, whose value is NaN — not
-    negative — for x < 0) makes `recurse` fill pixels whose columns have no inside voxel. -/
+    (what the renderer did before fix 3984e95 on a maybe-NaN interval such as that of `√x − 10`, whose
+    value is NaN — not negative — for x < 0) makes `recurse` fill pixels whose columns have no inside voxel. -/
 example : (recurse 1 (fun _ _ _ => false) exZ (fun _ => IState.filled) 9 ⟨0, 0, 0, 2, 2, 4⟩
             (Img.const 2 2 (-1000))).get 0 0 = 30 := by decide
 
